@@ -229,3 +229,29 @@ def canon_ol(text):
         return seen[k]
 
     return _OL_RE.sub(rep, text)
+
+
+# ---------------------------------------------------------------------------------------------
+# reader for model answers
+
+def read(s):
+    """Parse one s-expression into nested Python lists of strings."""
+    stack = [[]]
+    cur = []
+    for ch in s:
+        if ch in "() \n\t":
+            if cur:
+                stack[-1].append("".join(cur))
+                cur = []
+            if ch == "(":
+                stack.append([])
+            elif ch == ")":
+                top = stack.pop()
+                stack[-1].append(top)
+        else:
+            cur.append(ch)
+    if cur:
+        stack[-1].append("".join(cur))
+    if len(stack) != 1 or len(stack[0]) != 1:
+        raise ValueError("bad s-expression: " + s[:100])
+    return stack[0][0]
